@@ -5,6 +5,7 @@ EXTENDS LayoutImpl
 
 OrdersStd  == {-1, 0, 1}                      \* with ids as tie-break this gives "-1, 0, 0, 1" situations
 OrdersWide == {MinInt, -1, 0, 1, MaxInt}      \* ties with .text and with .addrtab
+OrdersTab  == {-1, 0, MaxInt}
 AlignsStd  == {0, 1, 2, 8, 16, 64}
 AlignsSmall == {1, 8, 64}
 AlignsTiny == {1, 16}
